@@ -1698,10 +1698,11 @@ func compileLogicalOpExprAux(context *funcContext, reg int, expr ast.Expr, ec *e
 		}
 	} else {
 		reg += compileExpr(context, reg, expr, ecnone(0))
-		if !hasnextcond {
-			code.AddABC(OP_TEST, a, 0, 0^flip, sline(expr))
-		} else {
+		if sreg != a && (isLastAnd || isLastOr) {
+			// this operand's value is the result when the test jumps to the end
 			code.AddABC(OP_TESTSET, sreg, a, 0^flip, sline(expr))
+		} else {
+			code.AddABC(OP_TEST, a, 0, 0^flip, sline(expr))
 		}
 	}
 	code.AddASbx(OP_JMP, 0, jumplabel, sline(expr))
